@@ -32,11 +32,27 @@ for e in kf:
         else:
             print(f"NOTE: witness {e['witness_test']} of an open finding no longer fails", file=sys.stderr)
         rc = 2 if expect_pass else rc
+# scenario tests of the independent seeded changes of this property, on the unchanged tree: informational
+# (they pass without the seeded change; a failure here is printed but decides nothing)
+import glob
+scen = []
+for mp in sorted(glob.glob(f"{V}/seeded/{prop}_seed*/meta.json")):
+    d = os.path.dirname(mp)
+    try:
+        rel = json.load(open(f"{d}/result.json"))["demo_rel_path"]
+    except Exception:
+        continue
+    p = subprocess.run([f"{V}/tools/witness.sh", "/repo", os.path.dirname(rel) or ".", "TestSeed", f"{d}/demo_test.go"], capture_output=True, text=True, errors="replace")
+    passed = p.returncode == 0 and "ok" in p.stdout
+    scen.append({"seed": os.path.basename(d), "passed_on_current_tree": passed})
+    if not passed:
+        print(f"NOTE: scenario test of {os.path.basename(d)} fails on the current tree", file=sys.stderr)
 evp = f"{V}/evidence/{prop}.json"
 if os.path.exists(evp):
     ev = json.load(open(evp))
     ev["coverage"]["selftest"] = st
     ev["coverage"]["witnesses"] = wit
+    ev["coverage"]["seed_scenarios"] = scen
     json.dump(ev, open(evp, "w"), indent=1)
-print(f"{prop} thorough extras: selftest {st['ok']}/{st['patches']} ok, witnesses {sum(1 for w in wit if w['as_expected'])}/{len(wit)} as expected")
+print(f"{prop} thorough extras: selftest {st['ok']}/{st['patches']} ok, witnesses {sum(1 for w in wit if w['as_expected'])}/{len(wit)} as expected, seed scenarios {sum(1 for x in scen if x['passed_on_current_tree'])}/{len(scen)} pass")
 sys.exit(rc)
